@@ -1378,6 +1378,16 @@ class Engine:
         it = self.eval(st.iter, env, mod)
         if isinstance(it, (SymList, SymRange, SymObjList)) or is_symstr(it) or is_symbytes(it):
             spec = self.loop_spec_for(st)
+            if spec is None and is_symstr(it) and known_len(it) is not None and known_len(it) <= 16:
+                it = [z3.SubString(it, k_, 1) for k_ in range(known_len(it))]        # a string of known length: unrolled
+                for item in it:
+                    self.assign_target(st.target, item, env, mod)
+                    try: self.exec_block(st.body, env, mod)
+                    except BreakSig: break
+                    except ContinueSig: continue
+                else:
+                    self.exec_block(st.orelse, env, mod)
+                return
             if spec is None: raise Unsupported("for loop over a symbolic-length iterable without a loop contract: %s:%d" % (mod["name"], st.lineno))
             return self.cut_loop(spec, st, env, mod, it)
         for item in self.iterate(it):
@@ -1816,7 +1826,7 @@ class ByteBuf:
 
 strupper = z3.Function("strupper", z3.StringSort(), z3.StringSort())
 strlower = z3.Function("strlower", z3.StringSort(), z3.StringSort())
-SYMSTR_METHODS = {"upper", "lower", "index", "find", "endswith", "startswith", "encode", "ljust", "rjust", "split", "rpartition", "partition"}
+SYMSTR_METHODS = {"isascii", "upper", "lower", "index", "find", "endswith", "startswith", "encode", "ljust", "rjust", "split", "rpartition", "partition"}
 
 class SymSplit:
     """s.split(sep) of a symbolic string: only the first and the last piece are modelled"""
@@ -1918,7 +1928,15 @@ def str_find(eng, s, x):
     return r
 
 
+strisascii = z3.Function("str_isascii", z3.StringSort(), z3.BoolSort())
+
+
 def symstr_method(eng, s, attr, a):
+    if attr == "isascii":
+        # uninterpreted predicate (like upper/lower): which characters it admits is the stdlib's business; contracts that need the link
+        # discharge it by enumeration over the code points
+        eng.assumptions.add("str.isascii() is an uninterpreted predicate on symbolic strings")
+        return strisascii(s)
     if attr in ("upper", "lower"):
         r = (strupper if attr == "upper" else strlower)(s)
         # case mapping never yields an empty string from a non-empty one (it may yield several characters)
